@@ -26,7 +26,7 @@ def render(toks, sep=" ; "):
     return s
 
 
-def generate_programs(out, cfg, path, simulate=None, depth=None, seed=None, timeout=1800, min_nodes=0, cap=None):
+def generate_programs(out, cfg, path, simulate=None, depth=None, seed=None, timeout=1800, min_nodes=0, cap=None, module="MC_Programs"):
     """Runs MC_Programs with the given cfg; writes {ast, toks} lines; returns count.
     Under -simulate TLC evaluates Emit on every successor it generates, so far more than `simulate` programs
     appear; min_nodes / cap select the larger ones and bound the count (deterministically for a given seed)."""
@@ -38,7 +38,7 @@ def generate_programs(out, cfg, path, simulate=None, depth=None, seed=None, time
             return None
         seen.add(key)
         return p
-    n, res = vlib.generate(out.pid, "MC_Programs", cfg, path, simulate=simulate, depth=depth, seed=seed, timeout=timeout, transform=tr,
+    n, res = vlib.generate(out.pid, module, cfg, path, simulate=simulate, depth=depth, seed=seed, timeout=timeout, transform=tr,
                            workers=(1 if simulate else None))
     out.add_model(res)
     return n
